@@ -15,7 +15,7 @@ REAL_THOROUGH = REAL_QUICK + [
 ]
 
 
-def build_cases(chk, *, n_synth, configs, real, which, budget_s, spec_fn=None, reformulate=False):
+def build_cases(chk, *, n_synth, configs, real, which, budget_s, spec_fn=None, reformulate=False, prehistory=False):
     """Yield (label, reaction, cfg, model, record)."""
     import ampform
 
@@ -23,6 +23,7 @@ def build_cases(chk, *, n_synth, configs, real, which, budget_s, spec_fn=None, r
     t0 = time.time()
     out = []
     rid = 0
+    n_pre = [0]
     cases = []
     for name, formalism in real:
         cases.append((f"real:{name}:{formalism}", lambda n=name, f=formalism: ampl.real_reaction(n, f), None))
@@ -50,6 +51,14 @@ def build_cases(chk, *, n_synth, configs, real, which, budget_s, spec_fn=None, r
                     cfg = {**cfg, "stable": {i + 1 for i in cfg["stable"]}}
             builder = ampform.get_builder(reaction)
             try:
+                if prehistory and hasattr(builder.naming, "insert_parent_helicities") and len(out) % 2 == 1:
+                    # every other model is the SECOND one of its builder: the first is formulated under the opposite
+                    # insert_parent_helicities flag (under which no two chains share a coefficient), then the flag is
+                    # set back - formulate() is a function of (reaction, configuration), so the law is owed all the same
+                    builder.naming.insert_parent_helicities = not cfg.get("insert_parent_helicities")
+                    builder.formulate()
+                    builder.naming.insert_parent_helicities = bool(cfg.get("insert_parent_helicities"))
+                    n_pre[0] += 1
                 U.configure(builder, cfg)
                 model = builder.formulate()
             except Exception as ex:  # noqa: BLE001
@@ -83,6 +92,8 @@ def build_cases(chk, *, n_synth, configs, real, which, budget_s, spec_fn=None, r
                 rec2["cfg"] = rec["cfg"]
                 out.append((label + ":again", reaction, cfg, model2, rec2))
                 rid += 1
+    if prehistory:
+        chk.part("prehistory", models_formulated_after_a_formulate_under_the_opposite_parent_helicity_flag=n_pre[0])
     return out
 
 
